@@ -239,6 +239,9 @@ func c05Pattern(i int) byte { return 0x81 + byte(i%113) } // never zero
 func c05Layout(op []string) {
 	line := strings.Join(op, " ")
 	h := fnv32([]byte(line))
+	if c05LayoutOf != "" { // c05.seqip: ONE layout for every member of the sequence (c05one.go)
+		h = fnv32([]byte(c05LayoutOf))
+	}
 	est := 4096
 	for _, t := range op[1:] {
 		n := len(t) / 2
@@ -449,6 +452,9 @@ func c05Collect() {
 // c05Later reports whether any of the caller-owned buffers / integers differs after collection from what
 // it held when the call had just returned.
 func c05Later(bufs [][]byte, ints ...*big.Int) bool {
+	if c05NoCollect { // c05.seqip: nothing between the calls of the sequence
+		return false
+	}
 	snap := make([][]byte, 0, len(bufs)+len(ints))
 	for _, b := range bufs {
 		snap = append(snap, append([]byte{}, b...))
@@ -478,6 +484,9 @@ const c05LateChange = "caller-buffer-changed-after-gc"
 func c05Exec(op []string) string {
 	if c05IsBatch(op) {
 		return c05Batch(op)
+	}
+	if len(op) == 0 || c05Arity[op[0]] != len(op) {
+		return "bad-op"
 	}
 	func() {
 		defer func() { _ = recover() }()
@@ -563,6 +572,49 @@ func c05Exec1(op []string, decoy bool) string {
 			return "caller-buffer-retained"
 		}
 		return c05Outcome(res, err, pan)
+	case "c05.mkey":
+		msg := arg(0, 1)
+		msg0 := append([]byte{}, msg...)
+		c05Arm()
+		res, pan := c05Catch(func() []byte { return ige.MessageKey(msg) })
+		if !bytes.Equal(msg, msg0) {
+			return "caller-buffer-changed"
+		}
+		if w := c05Check(); w != "" {
+			return w
+		}
+		if !decoy && c05Later([][]byte{msg, res}) {
+			return c05LateChange
+		}
+		if c05Retained([][]byte{res}, [][]byte{msg}) {
+			return "caller-buffer-retained"
+		}
+		return c05Outcome(res, nil, pan)
+	case "c05.kdf":
+		if op[3] != "0" && op[3] != "1" {
+			return "bad-op"
+		}
+		mk, ak := arg(0, 1), arg(1, 2)
+		mk0, ak0 := append([]byte{}, mk...), append([]byte{}, ak...)
+		var key, iv []byte
+		c05Arm()
+		_, pan := c05Catch(func() []byte { key, iv = ige.VerifGenerateAESIGE(mk, ak, op[3] == "1"); return nil })
+		if pan != "" {
+			return pan
+		}
+		if !bytes.Equal(mk, mk0) || !bytes.Equal(ak, ak0) {
+			return "caller-buffer-changed"
+		}
+		if w := c05Check(); w != "" {
+			return w
+		}
+		if !decoy && c05Later([][]byte{mk, ak, key, iv}) {
+			return c05LateChange
+		}
+		if c05Retained([][]byte{key, iv}, [][]byte{mk, ak}) {
+			return "caller-buffer-retained"
+		}
+		return fmt.Sprintf("key=%s iv=%s", showBytes(key), showBytes(iv))
 	case "c05.tkeys":
 		n, s := c05PlaceInt(0, op[1], decoy), c05PlaceInt(1, op[2], decoy)
 		var key, iv []byte
@@ -809,6 +861,23 @@ func c05Judge1(op []string, out string) string {
 		key, iv := refKDF(mk, ak, 8)
 		if want := "ok:" + showBytes(refIGE(key, iv, ct, true)); out != want {
 			return "Decrypt differs from IGE decryption under the message's key schedule: want " + clip(want)
+		}
+	case "c05.mkey":
+		if want := "ok:" + showBytes(sha1of(c05Bytes(op[1]))[4:20]); out != want {
+			return fmt.Sprintf("MessageKey of %d bytes is not SHA1(msg)[4:20]: want %s", len(c05Bytes(op[1])), want)
+		}
+	case "c05.kdf":
+		mk, ak := c05Bytes(op[1]), c05Bytes(op[2])
+		if out == "bad-op" || (op[3] != "0" && op[3] != "1") {
+			return ""
+		}
+		x := 8 * atoi(op[3])
+		if len(mk) != 16 || len(ak) < 128+x {
+			return "" // not a message key / an auth key the schedule cannot work with
+		}
+		key, iv := refKDF(mk, ak, x)
+		if want := fmt.Sprintf("key=%s iv=%s", showBytes(key), showBytes(iv)); out != want {
+			return fmt.Sprintf("aes key/iv of the message (x=%d) differ from the MTProto 1.0 key schedule: want %s", x, want)
 		}
 	case "c05.tkeys":
 		nb, sb := leftPad(c05Bytes(op[1]), 32), leftPad(c05Bytes(op[2]), 16)
@@ -1092,6 +1161,7 @@ func c05Gen(g *G) {
 	g.Emit("c05.tnopad f011280887c7bb01df0fc4e17830e0b91fbb8be4b2267cb985ae25f33b527253 f011280887c7bb01df0fc4e17830e0b91fbb8be4b2267cb985ae25f33b527253 "+
 		"f78af98ef9d401e298f3eeec1c927312aeb6b4125103bc5cc44bcdf0a15e160d445066ff000000000000000000000000", "temp-nopad-fixture")
 	c05GenBatches(g) // c05par.go: refused inputs of valid length, sequences without a collection, concurrent batches
+	c05GenOneArg(g)  // c05one.go: sequences in which exactly one argument changes from call to call
 }
 
 func init() {
